@@ -50,6 +50,7 @@ func checkC20(w *World, r *Report, tier string) propMeta {
 	c20R7(w, r)
 	c20R8(w, r, "C20.R8")
 	c20R9(w, r)
+	c14R2(w, r, "C20.R10") // every failure edge of the query region is recorded before the function that saw it returns — in particular before the file stage signals completion
 	return propMeta{
 		explanation: "The cursor's terminal state as path, lock and ownership rules: (R1) Results.err is written only under mu, on the not-yet-finalized edge, together with finalized = true; (R2) every `return false` of Next follows finish (directly or through terminate) or the iterDone test, and finish sets iterDone; (R3) Close runs its body under closeOnce, cancels, waits for done and returns nil; terminate cancels and waits for done before reading the recorded errors and wraps the caller's context error with %w when it is set; (R4) the guarded-by table of Results; (R5) no worker can wedge: every channel operation in the goroutines Query starts is a select with the query context's Done() case or a default (one named exception: querySlot.release takes back the token the slot itself sent); (R6) teardown order fileWorkers.Wait → close(blockJobs) → blockWorkers.Wait → handles.closeAll → markWorkersDone.",
 		notDecided:  "Interleavings of Next/Close themselves; MetaStore iterators that ignore ctx (a contract of the store).",
@@ -831,6 +832,28 @@ func checkC22(w *World, r *Report, tier string) propMeta {
 		if n == 0 {
 			r.undecided(r2, "deliver:blocking-send", w.pos(fn.Pos()), "blocking rowChan send not found")
 		}
+		// and nowhere else: any other function that can block sending on the
+		// row channel must also have released the slot first
+		for _, op := range w.chanOps() {
+			if op.Key != "Results.rowChan" || op.Fn == fn {
+				continue
+			}
+			blocking := false
+			switch x := op.Instr.(type) {
+			case *ssa.Send:
+				blocking = true
+			case *ssa.Select:
+				if op.Kind == "selsend" && x.Blocking {
+					blocking = true
+				}
+			}
+			if !blocking || (op.Kind != "send" && op.Kind != "selsend") {
+				continue
+			}
+			ofl := newFlow(w, op.Fn, slotClassifier(w))
+			f := ofl.Before(op.Instr)
+			r.check(f != nil && f.Must("released"), r2, "blocking-send-without-slot@"+baseName(w.name(op.Fn)), w.instrPos(op.Instr), "slot released before blocking on the consumer", baseName(w.name(op.Fn))+" can block on a full row channel while the worker still holds its query-semaphore slot: a stalled consumer parks the slots and every other query starves")
+		}
 		// nil return only with the slot re-acquired (or never released)
 		for i, ret := range fl.Returns() {
 			if allNil(retVals(w, ret, 0)) {
@@ -922,6 +945,17 @@ func checkC23(w *World, r *Report, tier string) propMeta {
 			}
 			if _, isIf := in.(*ssa.If); isIf {
 				break
+			}
+		}
+		if cb != nil {
+			cfl := newFlow(w, cb, &Classifier{Call: func(site ssa.Instruction, c *ssa.CallCommon) *Event {
+				if w.isCallTo(c, "Results.recordBlockStats") {
+					return ev("recorded")
+				}
+				return nil
+			}})
+			for i, ret := range cfl.Returns() {
+				r.check(cfl.Before(ret).Must("recorded"), r1, fmt.Sprintf("processDataBlock:stats-defer-records#%d", i), w.instrPos(ret), "the deferred record is unconditional", "the deferred stats record of a scan can return without recording (skipped on cancellation or some other condition): a block that already delivered rows is missing from Stats")
 			}
 		}
 		r.check(deferred, r1, "processDataBlock:stats-defer-at-entry", w.pos(fn.Pos()), "stats recorded on every exit", "processDataBlock does not unconditionally defer its stats record at entry: failed or cancelled scans drop out of the statistics")
@@ -1362,12 +1396,17 @@ func checkC24(w *World, r *Report, tier string) propMeta {
 	}
 	c24R5(w, r)
 	c24R7(w, r)
+	c17R8(w, r, "C24.R8") // the MetaStore receives the file-level filters the file-level test needs
 	nTable := c24R6(w, r)
 	return propMeta{
 		explanation: fmt.Sprintf("(R5) planBlockFilterReads' hasSections is a latch over the candidate blocks; (R6) exact prune table: evaluateBloomFilters interpreted over %d (tree, membership, absent-filter mask) cases equals its specification, so whatever the present filters rule out is disqualified. ", nTable) + "Effectiveness of pruning as reachability rules: (R1) the file-job send is unreachable from the false edge of the file-level bloom test and from an empty prefilter result; (R2) the block-filter pass opens and reads only when the prune query has conditions and the file has sections, and a block whose filters were read is queued for scanning only on the survived edge; (R3) row data is read only by processDataBlock (called only from the block worker), block jobs are sent only from the file worker's survivor loop; (R4) the scan reads exactly (RowDataOffset, RowDataSize) of its block and filter chunks start at the evaluated block's validated section.",
 		notDecided:  "Request counts on real layouts (the existing query_handles tests measure those); that stores honour the extents they are asked for.",
 	}
 }
+
+// derivedContext: constructors whose result is cancelled whenever the parent
+// (first argument) is — so waiting on the child observes the parent's end.
+var derivedContext = map[string]bool{"context.WithCancel": true, "context.WithTimeout": true, "context.WithDeadline": true, "context.WithValue": true, "context.WithCancelCause": true, "context.WithTimeoutCause": true, "context.WithDeadlineCause": true}
 
 // ctxOrigins: where a context value comes from — struct fields it is loaded
 // from ("field:Owner.name"), parameters ("param:fn.name", looking through
@@ -1402,10 +1441,18 @@ func ctxOrigins(w *World, v ssa.Value, seen map[ssa.Value]bool, out map[string]b
 		}
 	case *ssa.Extract:
 		if c, ok := x.Tuple.(*ssa.Call); ok {
+			if derivedContext[w.calleeName(&c.Call)] && len(c.Call.Args) > 0 {
+				ctxOrigins(w, c.Call.Args[0], seen, out) // a child context ends with its parent
+				return
+			}
 			out["call:"+w.calleeName(&c.Call)] = true
 			return
 		}
 	case *ssa.Call:
+		if derivedContext[w.calleeName(&x.Call)] && len(x.Call.Args) > 0 {
+			ctxOrigins(w, x.Call.Args[0], seen, out)
+			return
+		}
 		out["call:"+w.calleeName(&x.Call)] = true
 		return
 	case *ssa.UnOp:
@@ -1687,8 +1734,23 @@ func (cs *closers) closesAll(g *ssa.Function, j int) bool {
 			return false
 		}
 	}
-	// the loop ranges over the whole parameter
+	// the loop ranges over the whole parameter and is left only when it is
+	// exhausted (no early return or break on a failed Close)
 	hdr := innermostHeader(closeSite.Block())
+	if hdr == nil {
+		return false
+	}
+	inLoop := loopOf(closeSite.Block())
+	for b := range inLoop {
+		if b == hdr {
+			continue
+		}
+		for _, sb := range b.Succs {
+			if !inLoop[sb] {
+				return false
+			}
+		}
+	}
 	whole := false
 	for _, in := range hdr.Instrs {
 		if b, ok := in.(*ssa.BinOp); ok {
